@@ -431,14 +431,18 @@ def r4_single_binding(ctx, sym):
     def expr_node(name):
         return Obj('CaitNode<%s>' % name, astNode=Obj('ast.Name', id=name, _id=name))
 
-    def expr_scenario(build):
+    def expr_scenario(build, larger_current=False):
         fd = session()
         prev, cur = fd.calls['AstMap'](), fd.calls['AstMap']()
         old, new = student('earlier_subtree'), student('subtree_at_position')
         fd.call_method(prev, 'add_exp_to_sym_table', [expr_node('__a__'), old])
         fd.call_method(cur, 'add_exp_to_sym_table', [expr_node('__a__'), new])
+        if larger_current:
+            # the match in progress has paired more nodes than the inherited one
+            for i in range(3):
+                fd.call_method(cur, 'add_node_pairing', [expr_node('__n%d__' % i), student('node%d' % i)])
         merged = build(fd, prev, cur)
-        got = [m.attrs['exp_table'].get('__a__') for m in merged]
+        got = [m.attrs['exp_table'].get('__a__') if isinstance(m, Obj) else 'not a map: %r' % (m,) for m in merged]
         return got, old, new
     tmod = ctx.repo.module(MATCH)
     bh = tmod.func('StretchyTreeMatcher.binflex_helper')
@@ -464,9 +468,10 @@ def r4_single_binding(ctx, sym):
         'binflex_helper(left operand)': via_binflex,
         'binflex_helper(right operand)': via_binflex_right,
     }
+    expr_cases.update({k + '[current map larger]': v for k, v in list(expr_cases.items()) if 'binflex' not in k})
     for name, build in expr_cases.items():
         try:
-            got, old, new = expr_scenario(build)
+            got, old, new = expr_scenario(build, larger_current='current map larger' in name)
         except Inconclusive as e:
             raise AnalysisError("C10 R4: %s outside the decidable fragment: %s" % (name, e))
         except Raised as e:
